@@ -39,6 +39,6 @@ pub use wal::{replay_wal, Wal, WalEntry, WalOp};
 
 // Re-export persist types
 pub use persist::{
-    consolidate, consolidate_to_current, to_tuples, Batch, BatchRef, FilePersist, PersistBackend,
-    PersistConfig, PersistWal, ShardInfo, ShardMeta, Update,
+    consolidate, consolidate_to_current, to_current_set, to_tuples, Batch, BatchRef, FilePersist,
+    PersistBackend, PersistConfig, PersistWal, ShardInfo, ShardMeta, Update,
 };
